@@ -12,7 +12,8 @@ TECHNIQUE = ('property-based testing: generated send/WINDOW_UPDATE/SETTINGS hist
 RULE = ('cases: histories (4..40 steps) over 1..6 streams of send_data (sizes 0, 1, window-1, window, window+1, '
         'drawn; pad None/0/1..255), end_stream, received WINDOW_UPDATE (stream and connection; small, large, '
         'overflowing), received SETTINGS changing INITIAL_WINDOW_SIZE up and down (into negative windows) and '
-        'MAX_FRAME_SIZE; after every step local_flow_control_window must equal min(connection, stream) of the '
+        'MAX_FRAME_SIZE; servers also promise streams (push_stream), which stay reserved (local) across '
+        'window-changing frames before their response headers and DATA are sent; after every step local_flow_control_window must equal min(connection, stream) of the '
         'model and every emitted DATA frame must fit the model windows; probes: window+1 must raise '
         'FlowControlError and emit nothing, then exactly window must succeed; non-trivial = an '
         'INITIAL_WINDOW_SIZE change after data was sent, >= 1 padded frame and >= 2 streams; distinct by trace')
@@ -33,12 +34,14 @@ def run_case(data):
     conn = 65535
     streams = {}      # sid -> [window, open]
     closed = {}       # sid -> window of streams the library may still hold
+    reserved = {}     # promised sid -> window (server only; reserved (local) until the response headers go out)
     next_sid = 1
+    next_push = 2
     sent_any = iws_changed_after_data = padded = dead = False
     r.step('role', 'client' if client else 'server', 'peer max frame', peer_frame, 'iws', iws)
 
     def windows_ok(where):
-        for sid, (w, is_open) in streams.items():
+        for sid, (w, is_open) in list(streams.items()) + [(k, (v, True)) for k, v in reserved.items()]:
             if not is_open:
                 continue
             q = s.call('local_flow_control_window', sid)
@@ -99,7 +102,10 @@ def run_case(data):
             break
         live = [sid for sid, st in streams.items() if st[1]]
         op = ch.weighted([(3, 'open'), (10, 'send'), (3, 'wu-stream'), (3, 'wu-conn'), (3, 'iws'),
-                          (1, 'frame-size'), (1, 'end'), (1, 'probe'), (1, 'wu-overflow')])
+                          (1, 'frame-size'), (1, 'end'), (1, 'probe'), (1, 'wu-overflow'),
+                          (2, 'push'), (2, 'answer-push'), (1, 'wu-reserved')])
+        if op in ('push', 'answer-push', 'wu-reserved') and client:
+            op = 'send'
         where = 'step %d %s' % (stepno, op)
         if op == 'open' or not streams:
             if len(live) >= 6:
@@ -116,6 +122,44 @@ def run_case(data):
                 break
             streams[sid] = [iws, True]
             r.step('open', sid, 'window', iws)
+        elif op == 'push':
+            # a promised stream is reserved (local): it has a send window from the start
+            # (RFC 7540 s6.9.2 applies INITIAL_WINDOW_SIZE changes to it like to any other stream)
+            parents = [sid for sid in live if sid % 2]
+            if not parents or len(reserved) >= 3:
+                continue
+            o = s.call('push_stream', ch.pick(parents), next_push, REQ)
+            r.step('push_stream', next_push, o.brief())
+            if not o.ok:
+                r.violate('C03:harness:push-failed', o.brief())
+                break
+            reserved[next_push] = iws
+            next_push += 2
+            r.labels.add('pushed')
+        elif op == 'answer-push':
+            if not reserved:
+                continue
+            sid = ch.pick(sorted(reserved))
+            o = s.call('send_headers', sid, RESP)
+            r.step('send_headers (pushed response)', sid, o.brief())
+            if not o.ok:
+                r.violate('C03:harness:pushed-response-failed', o.brief())
+                break
+            streams[sid] = [reserved.pop(sid), True]
+            r.labels.add('pushed-stream-answered')
+        elif op == 'wu-reserved':
+            if not reserved:
+                continue
+            sid = ch.pick(sorted(reserved))
+            inc = ch.weighted([(4, ch.int(1, 70000)), (1, 1)])
+            if reserved[sid] + inc > TOP:
+                continue
+            o = s.feed(wire.window_update(sid, inc))
+            r.step('recv WINDOW_UPDATE on reserved', sid, inc, o.brief())
+            if not o.ok:
+                r.violate('C03:window-update-rejected:reserved:%s' % o.exc_name, '')
+                break
+            reserved[sid] += inc
         elif op == 'send':
             if not live:
                 continue
@@ -228,7 +272,7 @@ def run_case(data):
         elif op == 'iws':
             v = ch.pick([0, 1, 100, 20000, 65535, 70000, 200000, 2**20, iws + 1, max(0, iws - 1)])
             delta = v - iws
-            allw = [st[0] for st in streams.values()] + list(closed.values())
+            allw = [st[0] for st in streams.values()] + list(closed.values()) + list(reserved.values())
             if any(w + delta > TOP for w in allw):
                 continue
             o = s.feed(wire.settings([(wire.S_INITIAL_WINDOW_SIZE, v)]))
@@ -240,6 +284,10 @@ def run_case(data):
                 st[0] += delta
             for sid in closed:
                 closed[sid] += delta
+            for sid in reserved:
+                reserved[sid] += delta
+            if reserved:
+                r.labels.add('iws-change-with-reserved-stream')
             iws = v
             if sent_any:
                 iws_changed_after_data = True
